@@ -1,7 +1,46 @@
-(* C08 -- any sequence of updates keeps files, config and tags in agreement. (theorems are added as they are proved) *)
-From Coq Require Import List NArith.
-From BV Require Import Model.Project.
+(* C08 -- any sequence of updates keeps files, config and tags in agreement. *)
+From Coq Require Import List Bool NArith Arith Sorted.
+From BV Require Import Model.Project Proofs.ConfigFacts.
 Import ListNotations.
+
+Theorem C08_step_preserves_consistent : forall s o, consistent s = true -> consistent (step s o) = true.
+Proof. exact step_preserves_consistent. Qed.
+Print Assumptions C08_step_preserves_consistent.
+
+Theorem C08_run_preserves_consistent : forall ops s, consistent s = true -> consistent (run_ops ops s) = true.
+Proof. exact run_preserves_consistent. Qed.
+Print Assumptions C08_run_preserves_consistent.
+
+Theorem C08_update_strictly_increases : forall s o, In o [OUpdate; OUpdateNoTag; OUpdateNoCommit] ->
+  (newest s < ps_config (step s o))%nat /\ ps_config (step s o) = newest (step s o).
+Proof. exact update_strictly_increases. Qed.
+Print Assumptions C08_update_strictly_increases.
+
+Theorem C08_fail_changes_nothing : forall s, step s OFail = s.
+Proof. exact fail_changes_nothing. Qed.
+Print Assumptions C08_fail_changes_nothing.
+
+(* tag versions strictly increase along any history *)
+Theorem C08_tags_sorted : forall ops, StronglySorted lt (ps_tags (run_ops ops init_state)).
+Proof. exact tags_sorted. Qed.
+Print Assumptions C08_tags_sorted.
+
+Theorem C08_tags_below_config : forall ops t,
+  In t (ps_tags (run_ops ops init_state)) -> (t <= ps_config (run_ops ops init_state))%nat.
+Proof. exact tags_below_config. Qed.
+Print Assumptions C08_tags_below_config.
+
+Theorem C08_one_commit_per_update : forall s,
+  ps_commits (step s OUpdate) = S (ps_commits s) /\ ps_tags (step s OUpdate) = ps_tags s ++ [ps_config (step s OUpdate)].
+Proof. exact one_commit_per_update. Qed.
+Print Assumptions C08_one_commit_per_update.
+
+(* along a history no tag exceeds the config version, so a further update moves exactly one step up *)
+Theorem C08_next_update_possible : forall ops,
+  let s := run_ops ops init_state in ps_config (step s OUpdate) = S (ps_config s).
+Proof. exact next_update_possible. Qed.
+Print Assumptions C08_next_update_possible.
+
 Example C08_smoke : consistent (run_ops [OUpdate; OFail; OUpdateNoTag; OUpdate] init_state) = true.
 Proof. vm_compute. reflexivity. Qed.
 Print Assumptions C08_smoke.
